@@ -89,25 +89,44 @@ def main():
   t0 = time.time()
   rng = np.random.default_rng(args.seed)
   tried = 0
-  while len(obs) < ncase and tried < ncase * 6:
+  # stateful models (an RNN cell with its hidden state in a variable tensor, between dynamically quantised FULLY_CONNECTED ops)
+  # validated on several inputs: "averaged over the test inputs" means every input is run from the initial state
+  nstateful = 12 if args.tier == "quick" else 100
+  stateful = []
+  for k in range(nstateful):
+    m, shapes = synth.stateful_model(args.seed * 31 + k, second_fc=bool(k % 2))
+    stateful.append((m, shapes))
+  while (len(obs) < ncase and tried < ncase * 6) or stateful:
     tried += 1
-    scn = rgen.gen(args.seed * 15485863 + tried, 2, 5, kinds=KINDS, nsub=1 if tried % 4 else 2)
-    try:
-      impl = pipeline.run_impl(scn, seed=args.seed + tried)
-    except synth.Unrealisable:
-      continue
-    if impl["outcome"] != "done":
-      continue
-    model, qmodel, info = impl["in_bytes"], impl["out_bytes"], impl["info"]
+    if len(obs) >= ncase or tried >= ncase * 6 or (stateful and tried % 12 == 0):
+      model, shapes = stateful.pop()
+      from ai_edge_quantizer import recipe as _recipe
+      scn, info = {"stateful": True}, {"codes": [["FULLY_CONNECTED", "RNN"]]}
+      qz = quantizer.Quantizer(model, _recipe.dynamic_wi8_afp32())
+      qmodel = bytes(qz.quantize().quantized_model)
+      impl = {"cal": None}
+      nsamples = 3
+    else:
+      scn = rgen.gen(args.seed * 15485863 + tried, 2, 5, kinds=KINDS, nsub=1 if tried % 4 else 2)
+      try:
+        impl = pipeline.run_impl(scn, seed=args.seed + tried)
+      except synth.Unrealisable:
+        continue
+      if impl["outcome"] != "done":
+        continue
+      model, qmodel, info = impl["in_bytes"], impl["out_bytes"], impl["info"]
+      nsamples = 2
     inp, outp = project.project(model), project.project(qmodel)
     for pair_kind, tgt_model, tgt_proj in (("quantized", qmodel, outp), ("self", model, inp)):
       mname = "mse" if (tried + (pair_kind == "self")) % 2 else "median_diff_ratio"
       test_data = {}
       for sg in inp["sigs"]:
         test_data[sg["key"]] = [{n: np.abs(rng.normal(size=inp["subs"][sg["sub"]]["tensors"][t]["shape"])).astype(np.float32) + 0.1 for n, t in sg["ins"]}
-                                for _ in range(2)]
+                                for _ in range(nsamples)]
       try:
-        if pair_kind == "quantized":
+        if pair_kind == "quantized" and scn.get("stateful"):
+          res = qz.validate(test_data, error_metrics=mname)
+        elif pair_kind == "quantized":
           q = quantizer.Quantizer(model)
           pipeline.apply_recipe(q, scn, info)
           q.quantize(impl.get("cal"))
@@ -184,7 +203,9 @@ def main():
       "states": r.distinct + ro.distinct, "transitions": r.generated + ro.generated, "traces_validated_against_impl": len(obs),
       "comparison_values_checked": sum(len(o["valok"]) for o in obs), "metric_law_vectors": nlaw,
       "evaluations": len(obs), "distinct_nontrivial": sum(1 for o in obs if not o["self"]),
-      "rule": "random 2-5 operator scenarios (1-2 signatures) quantized under random per-op modes; each compared with its quantized version and "
+      "stateful_models": nstateful,
+      "rule": "random 2-5 operator scenarios (1-2 signatures) quantized under random per-op modes, plus stateful models (RNN cell with a variable "
+              "state tensor between dynamically quantised FULLY_CONNECTED ops, 3 test inputs); each compared with its quantized version and "
               "with itself, alternating mse / median_diff_ratio, 2 test inputs; non-trivial = quantized pair",
       "samples": [dict(pair=m["pair"], metric=m["metric"], groups={k: obs[i][k] for k in ("gin", "gout", "gconst", "ginter")}) for i, m in list(enumerate(meta))[:2]],
       "impl_wall_s": round(time.time() - t0, 1), "exhaustive": False,
